@@ -257,7 +257,9 @@ type Req struct {
 	Query  bool
 }
 
-func (r Req) JSON() M { return M{"method": trace.B(r.Method), "target": []int(r.Target), "query": r.Query} }
+func (r Req) JSON() M {
+	return M{"method": trace.B(r.Method), "target": []int(r.Target), "query": r.Query}
+}
 
 func reqFromJSON(v any) Req {
 	m := drv.Map(v)
